@@ -600,6 +600,9 @@ var c16Known = []struct {
 // the Vm.v model process (nil when it could not be started)
 var c16VMModel *Model
 
+// the VmHeap.v model process (the VM with the store for arrays and maps)
+var c16VMHeapModel *Model
+
 // regression cases: array results must not share storage with their operands
 // (a concatenation built with append(left.Elements, …) aliases the left
 // operand's spare capacity; `a + []` must be a copy)
@@ -620,7 +623,13 @@ func runC16(cfg Config, r *Result) {
 	} else {
 		r.Violate(Violation{Kind: "correspondence", Key: "model-start", Detail: err.Error()})
 	}
-	r.Rule = "generated evy programs (same generator as C17: declarations, assignment, arithmetic, strings, arrays, maps, index, slice, if/else-if/else, while, break, for over ranges/arrays/strings/maps, nested). For each: the set of AST nodes Compile has no translation for is read off the parsed tree; if non-empty, Compile must return an error (else: unsupported-silently-dropped). Otherwise the program is run on the real evaluator (recording platform, yield budget) and compiled and run on the real VM (recover, time limit): run-time errors must correspond by sentinel (division/modulo by zero may be a VM-only error), and every evaluator global (by name; numbers as IEEE bit patterns, strings exactly, arrays/maps structurally) must have the same value on the VM (Compiler.VerifGlobalSymbols + VM.VerifGlobalRepr). The main stream avoids the recorded VM divergence classes; a second stream enables exactly one class per program (keys vm-<class>). Stream range-forms: every form of `for … range`, with and without loop variable, over strings with multi-byte characters (literals, variables, concatenations, slices), arrays, maps and step ranges, at top level and inside blocks, nested and with breaks; every loop counts its iterations and folds its loop variable into globals. In addition the Compile.v model is compared with the real compiler byte for byte and constant for constant on the AST exported from Go. A further stream (sem-tie) runs exec_l, the big-step semantics compile_correct_ctl_partial is stated against (coq/CompileSem.v, extracted), on generated programs of the fragment psfrag next to the real evaluator and the evaluator model coq/Sem.v: defined implies the evaluator finishes with the same declared globals, undefined (ample fuel) implies a run-time error. The same for lx_l, the semantics with block scopes compile_correct_locals_partial is stated against, on generated programs of lpfrag (declarations, shadowing declarations and loop variables inside blocks): stream sem-tie-locals. Stream shape: the side conditions of the whole-program theorems (wplain_slist, nb_slist: called parser-guaranteed in C17_compile_wf_all / C16_compile_correct_plain_partial) are evaluated by the extracted model on the exported AST of every corpus and generated program the real parser accepts and must hold; for programs the real compiler accepts, plain_slist must be exactly `no element store in the Go AST` and plain must imply lfrag_slist. non-trivial = the emitted code contains a jump or range instruction (or: the program is outside the subset); distinct = distinct program text"
+	if m, err := StartModelBig("vmheap"); err == nil {
+		c16VMHeapModel = m
+		defer m.Close()
+	} else {
+		r.Violate(Violation{Kind: "correspondence", Key: "model-start", Detail: err.Error()})
+	}
+	r.Rule = "generated evy programs (same generator as C17: declarations, assignment, arithmetic, strings, arrays, maps, index, slice, if/else-if/else, while, break, for over ranges/arrays/strings/maps, nested). For each: the set of AST nodes Compile has no translation for is read off the parsed tree; if non-empty, Compile must return an error (else: unsupported-silently-dropped). Otherwise the program is run on the real evaluator (recording platform, yield budget) and compiled and run on the real VM (recover, time limit): run-time errors must correspond by sentinel (division/modulo by zero may be a VM-only error), and every evaluator global (by name; numbers as IEEE bit patterns, strings exactly, arrays/maps structurally) must have the same value on the VM (Compiler.VerifGlobalSymbols + VM.VerifGlobalRepr). The main stream avoids the recorded VM divergence classes; a second stream enables exactly one class per program (keys vm-<class>). Stream range-forms: every form of `for … range`, with and without loop variable, over strings with multi-byte characters (literals, variables, concatenations, slices), arrays, maps and step ranges, at top level and inside blocks, nested and with breaks; every loop counts its iterations and folds its loop variable into globals. In addition the Compile.v model is compared with the real compiler byte for byte and constant for constant on the AST exported from Go. The VM models are compared with the real VM on the same programs (outcome class, sp, every global slot structurally): Vm.v (value semantics, OpSetIndex only checks) on programs whose bytecode has no OpSetIndex, VmHeap.v (arrays and maps are references into a heap, OpSetIndex performs the store) on every program, element stores, aliasing and map insertions included. A further stream (sem-tie) runs exec_l, the big-step semantics compile_correct_ctl_partial is stated against (coq/CompileSem.v, extracted), on generated programs of the fragment psfrag next to the real evaluator and the evaluator model coq/Sem.v: defined implies the evaluator finishes with the same declared globals, undefined (ample fuel) implies a run-time error. The same for lx_l, the semantics with block scopes compile_correct_locals_partial is stated against, on generated programs of lpfrag (declarations, shadowing declarations and loop variables inside blocks): stream sem-tie-locals. Stream shape: the side conditions of the whole-program theorems (wplain_slist, nb_slist: called parser-guaranteed in C17_compile_wf_all / C16_compile_correct_plain_partial) are evaluated by the extracted model on the exported AST of every corpus and generated program the real parser accepts and must hold; for programs the real compiler accepts, plain_slist must be exactly `no element store in the Go AST` and plain must imply lfrag_slist. non-trivial = the emitted code contains a jump or range instruction (or: the program is outside the subset); distinct = distinct program text"
 	if cfg.Replay != "" {
 		b, err := os.ReadFile(cfg.Replay)
 		if err == nil {
